@@ -200,6 +200,10 @@ pub fn render_intro<EF: ExtraTokenFields + RenderEf>(r: &StandardTokenIntrospect
 }
 
 pub fn render_dev<EF: ExtraDeviceAuthorizationFields + RenderEf>(d: &DeviceAuthorizationResponse<EF>) -> String {
+    // (what an application shows to the user: Display and Deref of the verification URI are the text the server sent)
+    if d.verification_uri().to_string() != d.verification_uri().as_str() || &***d.verification_uri() != d.verification_uri().as_str() {
+        return format!("verification-uri-displays-as {}", tok_bytes(d.verification_uri().to_string().as_bytes()));
+    }
     format!(
         "dev:{}:{}:{}:{}:{}:{}:{}",
         tok_bytes(d.device_code().secret().as_bytes()),
